@@ -581,6 +581,30 @@ impl From<&'static str> for Expr {
     }
 }
 
+// Verification hooks: thin public wrappers around the private parsing pipeline.
+// Compiled only with `--cfg spindalis_verif`; they add no behaviour.
+#[cfg(spindalis_verif)]
+pub mod verif_hooks {
+    use super::{Expr, PolynomialError, Token};
+    use crate::polynomials::structs::advanced::{Polynomial, TokenStream};
+
+    pub fn lexer(input: &str) -> Result<Vec<Token>, PolynomialError> {
+        super::lexer(input)
+    }
+    pub fn implied_multiplication_pass(tokens: &mut Vec<Token>) {
+        super::implied_multiplication_pass(tokens)
+    }
+    pub fn parse_expr(tokens: &mut TokenStream, min_bind_pow: f64) -> Result<Expr, PolynomialError> {
+        super::parse_expr(tokens, min_bind_pow)
+    }
+    pub fn parser(tokens: Vec<Token>) -> Result<Polynomial, PolynomialError> {
+        super::parser(tokens)
+    }
+    pub fn fold_operations(expr: Expr) -> Expr {
+        super::fold_operations(expr)
+    }
+}
+
 #[cfg(test)]
 mod tests {
     use super::*;
